@@ -55,6 +55,15 @@ CHECKS = {
         text="Handler error names from a grammar (dots anywhere, empty parts, unicode, org.varlink.service.X, .X.Y, near misses) with generated parameters, and the four built-in helpers with arbitrary strings, both ends real. Oracle: sendable iff non-empty interface part that is not exactly org.varlink.service; sendable -> client gets *varlink.Error with exactly that name and JSON-equal parameters; otherwise the handler got an error and nothing was written; built-ins arrive as their typed errors carrying the value the service put in.",
         technique=DST + "both real endpoints over the simulated transport, error-namespace reference predicate",
         ref="DESIGN.md §4 C12"),
+    "C11": dict(
+        text="A real Connection (simulated stream, and PipeCon over simulated stdio pipes) against a scripted raw server that sends a generated reply byte stream - valid single / more-sequence / error frames for the four standard and foreign names with fitting, missing, null and unfitting parameters, bare null, wrong shapes, truncated and random bytes, byte-level mutations, frames beyond bufio's buffer - in arbitrary pieces and dies (close / reset / silence) at a drawn byte offset; client operations Send with all 16 flag sets, receive repeatedly, Call, Upgrade. Oracle: a reference decoder over the bytes actually sent: next complete frame -> (parameters, continues) | remote error of that name | decode error; never success without a complete frame; unexpected-EOF after an orderly close; refused flag sets write nothing, accepted requests carry exactly the requested flags; no panic.",
+        technique=DST + "scripted hostile peer with abort at arbitrary byte offsets, reference decoder oracle over the delivered bytes",
+        ref="DESIGN.md §4 C11"),
+    "C13": dict(
+        text="2-5 concurrent actors take one service through register / duplicate register / serve (Listen | Bind+DoListen) / register while serving / Shutdown / register again while client actors call the GetInfo, GetInterfaceDescription and Resolver helpers; identity strings, names and descriptions arbitrary valid UTF-8. Completed operations are stamped with kernel sequence numbers at invoke and return (serving calls split into Start [invoke, first Accept] and Stop [Shutdown invoke, return]; unfinished ones are pending) and checked with porcupine against a sequential model {identity, names in order, descriptions, serving}: Register -> ok | refused and a refused Register changes nothing; GetInfo / GetInterfaceDescription return the state at their linearisation point. Resolver helper results are compared field for field with what the test resolver interface answered.",
+        technique=DST + "recorded concurrent history checked for linearizability (porcupine) against a sequential reference model",
+        note="Trusted: porcupine v1.3.0, the simulated transport, testing/synctest. Histories are kept below 40 operations so the check never times out (Unknown is never reported).",
+        ref="DESIGN.md §4 C13"),
 }
 
 NA = {
@@ -66,7 +75,7 @@ NA = {
     "C20": "pure function of process-global OS state (environment, pid, inherited fd table) with no seam; a finite configuration product to enumerate in subprocesses, not simulation (DESIGN.md §5)",
 }
 
-PENDING = {'C11': 'simulation-decidable (DESIGN.md §4) but its check is not built yet at this commit; not claimed until it is', 'C13': 'simulation-decidable (DESIGN.md §4) but its check is not built yet at this commit; not claimed until it is'}
+PENDING = {}
 
 def main():
     checks = []
